@@ -100,7 +100,7 @@ let functions : (string * (val0 -> val0)) list = [
   ("evm", evm_run);
   ("genesis", genesis_run);
   ("det", det_run);
-  ("blocks", hub_run);
+  ("blocks", blocks_run);
   ("detoracle", oracle_run);
   ("votesgen", votesgen_run);
   ("oraclegen", oraclegen_run);
@@ -128,11 +128,14 @@ let monitors : ((string * string) * (val0 -> val0 -> val0)) list = [
   (("C08", "sigset"), mon_C08_sigset);
   (("C08", "hub"), mon_C08_hub);
   (("C08", "sigprune"), mon_C08_prune);
+  (("C08", "reg"), mon_C08_reg);
   (("C07", "sig"), mon_C07_sig);
   (("C14", "claim"), mon_C14);
   (("C16", "reg"), mon_C16);
   (("C17", "reg"), mon_C17);
   (("C05", "blocks"), mon_C05_hub);
+  (("C05", "hub"), mon_C05_hub);
+  (("C01", "votesh"), mon_C01_votes);
   (("C05", "votes"), mon_C05_votes);
   (("C05", "oracle"), mon_C05_oracle);
   (("C15", "genesis"), mon_C15_hub);
